@@ -497,8 +497,8 @@ MODULES["NewtonC"] = dict(
 # the place-returning index_mut are not translated).  Sorts: "xelem" = the coordinate type X of Mesh1D<T, X> (only stored and
 # copied), "xvec" = Vector<X>, "vv" = Vec<Vector<T>>; "m1" = Mesh1D<T, X>, "m1f" = Mesh1D<T, f64> / Mesh1D<f64, f64>,
 # "m2" = Mesh2D<T> / Mesh2D<f64> (nodes are Vector<f64>: the model's X := T A).
-# The literals 0.5, 0.25, 1.0e-7 are the model's parameters half, quarter, snap (Section variables of gen/SrcMesh.v; their
-# values are tied by gen/Params.v and by the instances the checks run); f64::powf(v, 2.0) is read as v * v (Model/Mesh.v).
+# The literals 0.5, 0.25, 1.0e-7 are the model's parameters half, quarter, snap: a regenerated function that uses any of them
+# takes all three, in this order (their values are tied by gen/Params.v and by the instances the checks run); f64::powf(v, 2.0) is read as v * v (Model/Mesh.v).
 _r.LISTS["xvec"] = "xelem"; _r.LISTS["vv"] = "vec"
 GTYPES.update({"xelem": "X", "xvec": "(list X)", "vv": "(list (list (T A)))", "m1": "(mesh1 A X)", "m1f": "(mesh1 A (T A))", "m2": "(mesh2 A (T A))"})
 RUST_TYPES += [(r"^X$", "xelem"), (r"^Vector<X>$", "xvec"), (r"^Vec<Vector<(T|f64)>>$", "vv"), (r"^Mesh1D<T,X>$", "m1"),
@@ -526,7 +526,8 @@ M1_GEN = r"^<T:Clone\+Number,X:Clone\+Number\+Copy>Mesh1D<T,X>$"
 M2_GEN = r"^<T:Clone\+Number>Mesh2D<T>$"
 MODULES["Mesh"] = dict(
     imports="From OV Require Import Base.Panic Base.Arith Model.Vector Model.Matrix Model.Mesh gen.SrcPrelude.",
-    context=["Context {A : Arith} {X : Type}.", "Variables (half quarter snap : T A)."],
+    context=["Context {A : Arith} {X : Type}."],
+    lit_params=[("half", "(T A)"), ("quarter", "(T A)"), ("snap", "(T A)")],
     spec=dict(lit2=True, literals={"0.5": "half", "0.25": "quarter", "1.0e-7": "snap"},
               paths={("Mesh1D::new", 2): dict(g="mesh1_new {0} {1}", ret="m1f", args=["vec", "usize"]),
                      ("f64::powf", 2): dict(g="mul {0} {0}", ret="elem", args=["elem", "elem"], require={1: "(add (@one A) (@one A))"})}),
